@@ -101,14 +101,16 @@ def run(ctx):
                 with open(cases) as f:
                     for last in f: pass
             except Exception: pass
-            tail = [l for l in err.splitlines() if "permuteDimensions" not in l][-25:]
-            ctx.violation({"harness_rc": rc, "mode": mode, "stderr": "\n".join(tail), "last_case_line": last[-1500:],
+            keys = ("ERROR:", "SUMMARY:", "runtime error", "Assertion", "TIMEOUT", "terminate")
+            tail = [l.strip() for l in err.splitlines() if any(k in l for k in keys)][-8:] or err.splitlines()[-5:]
+            ctx.violation({"harness_rc": rc, "mode": mode, "stderr": "\n".join(tail), "last_case_line": last[-3000:],
                            "replay_cmd": "VERIF_SEED=%d python3 bin/check.py C15 --tier %s" % (ctx.seed, ctx.tier)},
-                          "permute harness (%s build) %s rc=%d: %s" % (mode, "timed out" if rc == 124 else "aborted (sanitizer/assertion/crash)", rc, " | ".join(tail[-4:])[:400]))
-            continue
+                          "permute harness (%s build) %s rc=%d at or after the call in last_case_line: %s" % (
+                              mode, "timed out" if rc == 124 else "aborted (sanitizer/assertion/crash)", rc, " | ".join(tail)[:500]))
+            # the lines produced before the abort are still compared below
         if not ctx.driver_ok() or not ctx.run_driver("C15", cases, model):
             ctx.tie_ok = False; ctx.broken.append({"kind": "driver failed"}); continue
-        dist = json.load(open(stats))
+        if os.path.exists(stats): dist = json.load(open(stats))
         prev_before = None; prev_ok = False
         nlines = 0
         with open(cases) as fc, open(impl) as fi, open(model) as fm:
